@@ -501,104 +501,117 @@ func c17RunSession(t *testing.T, c *c17RealCase, local, served *chain.StubBlockC
 	ses.Ancestor = -1
 	var mu sync.Mutex
 	var lastAdd *message.AddBlockRsp
-	done := make(chan struct{})
+	notify := make(chan error, 1)
+	notStarted := make(chan struct{}, 1)
+	quit := make(chan struct{})
+	hubDone := make(chan struct{})
+	injected := false
+	handle := func(msg interface{}) {
+		switch m := msg.(type) {
+		case *message.SyncStart:
+			ss.realSyncer.handleMessage(msg)
+			if !ss.realSyncer.isRunning {
+				notStarted <- struct{}{} // request ignored (target not above the local best)
+				return
+			}
+			mu.Lock()
+			ses.Started = true
+			mu.Unlock()
+		case *message.FinderResult:
+			mu.Lock()
+			if m.Ancestor != nil {
+				ses.Ancestor = int64(m.Ancestor.No)
+				onLocal := int(m.Ancestor.No) <= local.Best && bytes.Equal(local.Hashes[m.Ancestor.No], m.Ancestor.Hash)
+				ses.AncOnLocal = onLocal
+				if int(m.Ancestor.No) <= served.Best && bytes.Equal(served.Hashes[m.Ancestor.No], m.Ancestor.Hash) {
+					ses.AncOnRemote = true
+				}
+				if m.Err == nil && onLocal {
+					local.Rollback(m.Ancestor) // what the chain service does when the first child arrives
+				}
+			}
+			mu.Unlock()
+			ss.realSyncer.handleMessage(msg)
+		case *message.AddBlock:
+			b := m.Block
+			a := c17Add{No: b.BlockNo(), Hash: fmt.Sprintf("%x", b.BlockHash()[:6]), Prev: fmt.Sprintf("%x", b.GetHeader().GetPrevBlockHash()[:6])}
+			if int(b.BlockNo()) <= served.Best && bytes.Equal(served.Hashes[b.BlockNo()], b.BlockHash()) {
+				a.OnHash = true
+			}
+			mu.Lock()
+			ses.Adds = append(ses.Adds, a)
+			mu.Unlock()
+			if stale != nil && !injected {
+				injected = true
+				ss.stubRequester.TellTo(message.SyncerSvc, stale) // a late response of the previous session
+			}
+			err := local.AddBlock(b)
+			rsp := &message.AddBlockRsp{BlockNo: b.BlockNo(), BlockHash: b.GetHash(), Err: err}
+			mu.Lock()
+			lastAdd = rsp
+			mu.Unlock()
+			ss.stubRequester.TellTo(message.SyncerSvc, rsp)
+		case *message.SyncStop:
+			mu.Lock()
+			ses.Stops++
+			mu.Unlock()
+			ss.realSyncer.handleMessage(msg)
+		default:
+			if isOtherActorRequest(msg) {
+				if ga, ok := msg.(*message.GetSyncAncestor); ok && c.LieAnc != -1 {
+					var anc *types.BlockInfo
+					if c.LieAnc >= 0 && c.LieAnc <= served.Best {
+						anc = &types.BlockInfo{Hash: served.Hashes[c.LieAnc], No: uint64(c.LieAnc)}
+					}
+					ss.stubRequester.TellTo(message.SyncerSvc, &message.GetSyncAncestorRsp{Seq: ga.Seq, Ancestor: anc})
+				} else if gh, ok := msg.(*message.GetHashes); ok {
+					// StubSyncer.GetHashes asserts; answer without asserting
+					hashes, herr := served.GetHashes(gh.PrevInfo, gh.Count)
+					ss.stubRequester.TellTo(message.SyncerSvc, &message.GetHashesRsp{Seq: gh.Seq, PrevInfo: gh.PrevInfo, Hashes: hashes, Count: uint64(len(hashes)), Err: herr})
+				} else {
+					ss.handleActorMsg(msg)
+				}
+			} else {
+				ss.realSyncer.handleMessage(msg)
+			}
+		}
+	}
 	// the hub: like StubSyncer.start, but observing and never asserting
 	go func() {
-		defer close(done)
-		injected := false
+		defer close(hubDone)
 		for {
-			msg := ss.stubRequester.recvMessage()
-			switch m := msg.(type) {
-			case *message.FinderResult:
-				mu.Lock()
-				if m.Ancestor != nil {
-					ses.Ancestor = int64(m.Ancestor.No)
-					if int(m.Ancestor.No) <= local.Best && bytes.Equal(local.Hashes[m.Ancestor.No], m.Ancestor.Hash) {
-						ses.AncOnLocal = true
-					}
-					if int(m.Ancestor.No) <= served.Best && bytes.Equal(served.Hashes[m.Ancestor.No], m.Ancestor.Hash) {
-						ses.AncOnRemote = true
-					}
-					if m.Err == nil {
-						local.Rollback(m.Ancestor)
-					}
-				}
-				mu.Unlock()
-				ss.realSyncer.handleMessage(msg)
-			case *message.AddBlock:
-				b := m.Block
-				a := c17Add{No: b.BlockNo(), Hash: fmt.Sprintf("%x", b.BlockHash()[:6]), Prev: fmt.Sprintf("%x", b.GetHeader().GetPrevBlockHash()[:6])}
-				if int(b.BlockNo()) <= served.Best && bytes.Equal(served.Hashes[b.BlockNo()], b.BlockHash()) {
-					a.OnHash = true
-				}
-				mu.Lock()
-				ses.Adds = append(ses.Adds, a)
-				mu.Unlock()
-				if stale != nil && !injected {
-					injected = true
-					ss.stubRequester.TellTo(message.SyncerSvc, stale) // a late response of the previous session
-				}
-				err := local.AddBlock(b)
-				rsp := &message.AddBlockRsp{BlockNo: b.BlockNo(), BlockHash: b.GetHash(), Err: err}
-				mu.Lock()
-				lastAdd = rsp
-				mu.Unlock()
-				ss.stubRequester.TellTo(message.SyncerSvc, rsp)
-			case *message.SyncStart:
-				ss.realSyncer.handleMessage(msg)
-				if !ss.realSyncer.isRunning {
-					return // request ignored (target not above the local best)
-				}
-				mu.Lock()
-				ses.Started = true
-				mu.Unlock()
-			case *message.SyncStop:
-				mu.Lock()
-				ses.Stops++
-				if m.Err == nil {
-					ses.Stop = "ok"
-				} else {
-					ses.Stop = "err:" + m.Err.Error()
-				}
-				mu.Unlock()
-				ss.realSyncer.handleMessage(msg)
+			select {
+			case msg := <-ss.stubRequester.sendCh:
+				handle(msg)
+			case <-quit:
 				return
-			case *message.CloseFetcher:
-				ss.realSyncer.handleMessage(msg)
-			default:
-				if isOtherActorRequest(msg) {
-					if ga, ok := msg.(*message.GetSyncAncestor); ok && c.LieAnc != -1 {
-						var anc *types.BlockInfo
-						if c.LieAnc >= 0 {
-							anc = &types.BlockInfo{Hash: served.Hashes[c.LieAnc], No: uint64(c.LieAnc)}
-						}
-						ss.stubRequester.TellTo(message.SyncerSvc, &message.GetSyncAncestorRsp{Seq: ga.Seq, Ancestor: anc})
-					} else if gh, ok := msg.(*message.GetHashes); ok {
-						// StubSyncer.GetHashes asserts; answer without asserting
-						hashes, herr := served.GetHashes(gh.PrevInfo, gh.Count)
-						ss.stubRequester.TellTo(message.SyncerSvc, &message.GetHashesRsp{Seq: gh.Seq, PrevInfo: gh.PrevInfo, Hashes: hashes, Count: uint64(len(hashes)), Err: herr})
-					} else {
-						ss.handleActorMsg(msg)
-					}
-				} else {
-					ss.realSyncer.handleMessage(msg)
-				}
 			}
 		}
 	}()
-	ss.stubRequester.TellTo(message.SyncerSvc, &message.SyncStart{PeerID: targetPeerID, TargetNo: uint64(target)})
+	ss.stubRequester.TellTo(message.SyncerSvc, &message.SyncStart{PeerID: targetPeerID, TargetNo: uint64(target), NotifyC: notify})
+	stop := ""
 	select {
-	case <-done:
-	case <-time.After(20 * time.Second):
-		mu.Lock()
-		ses.Stop = "hang"
-		mu.Unlock()
+	case err := <-notify:
+		if err == nil {
+			stop = "ok"
+		} else {
+			stop = "err:" + err.Error()
+		}
+	case <-notStarted:
+		stop = "not-started"
+	case <-time.After(c17Watchdog):
+		stop = "hang"
 	}
+	close(quit)
+	<-hubDone
 	mu.Lock()
 	defer mu.Unlock()
+	ses.Stop = stop
 	ses.LocalBest = local.Best
 	return ses, lastAdd
 }
+
+const c17Watchdog = 15 * time.Second
 
 func TestVerifC17Real(t *testing.T) {
 	in, err := os.Open(os.Getenv("VERIF_IN"))
@@ -719,6 +732,7 @@ func TestVerifC17Real(t *testing.T) {
 			if n2 > maxLen {
 				n2 = maxLen
 			}
+			c.LieAnc = -1 // the target peer answers truthfully in the second session
 			remote2 := prefix(trunk, n2)
 			for _, p := range peers {
 				p.blockChain = remote2
